@@ -17,6 +17,63 @@ ALPHABET = ["fn", "let", "x", "1", "1.5", "2i8", '"s"', '"', "\\\\m\n", "\\", "(
             " ", "\n", "// c\n", "é", "😀", "@", "::", "=>", "\r\n", "\r", "\t"]
 
 
+# ---------------------------------------------------------------- unclosed nesting (the parser's fuel: 256 lookups without a token consumed)
+# opener (repeated d times) of every construct that nests and has to be closed later, in expression, type and pattern position
+UNCLOSED_OPENERS = {
+    "paren": "(", "bracket": "[", "call": "f(", "method": "a.m(", "tuple": "(1, ", "array": "[1, ", "args": "f(1, ", "neg-paren": "-(", "binop-paren": "1 + (",
+    "if-block": "if true { ", "else-block": "if true { 1 } else { ", "while-block": "while true { ", "match-arm": "match 1 { _ => ", "match-block": "match 1 { _ => { ",
+    "closure": "|a| ", "closure-paren": "|a| (", "closure-block": "|a| { ", "closure-call": "(|a| a)(", "struct-literal": "S { a: ", "let-block": "if true { let y = ",
+    "mixed": None,
+}
+UNCLOSED_MIX = ["(", "[", "f(", "|a| { ", "if true { ", "match 1 { _ => "]
+# what follows the innermost opener: a token `expect` refuses to swallow (or the end of the item), then further items
+UNCLOSED_STOPS = {"semi": ";", "rbrace": "}", "rparen": ")", "rbracket": "]", "comma": ",", "let": "let z = 2;", "return": "return 1;", "item": ""}
+UNCLOSED_TAIL = "\n    a\n}\n\nfn main() {\n    println(\"still here\")\n}\n"
+UNCLOSED_EXPR_PRE = "fn g(a: int32) -> int32 {\n    let v = "
+UNCLOSED_SHAPES = {          # position:construct -> (text before, opener, innermost operand)
+    "type-param:generic": ("fn g(a: ", "Vec[", "int32"), "type-param:tuple": ("fn g(a: ", "(", "int32"), "type-param:fn": ("fn g(a: ", "(int32) -> (", "int32"),
+    "type-let:generic": ("fn g(a: int32) -> int32 {\n    let v: ", "Vec[", "int32"), "type-let:tuple": ("fn g(a: int32) -> int32 {\n    let v: ", "(int32, ", "int32"),
+    "type-result:generic": ("fn g(a: int32) -> ", "Vec[", "int32"), "type-field:generic": ("struct G { a: ", "Vec[", "int32"), "type-variant:tuple": ("enum G { A(", "(", "int32"),
+    "pattern-let:tuple": ("fn g(a: int32) -> int32 {\n    let ", "(", "p"), "pattern-let:pair": ("fn g(a: int32) -> int32 {\n    let ", "(q, ", "p"),
+    "pattern-arm:tuple": ("fn g(a: int32) -> int32 {\n    match a { ", "(", "p"), "pattern-arm:ctor": ("fn g(a: int32) -> int32 {\n    match a { ", "Some(", "p"),
+    "impl-for:generic": ("impl T for ", "Vec[", "int32"),
+}
+
+
+def unclosed_texts(tier):
+    """[(label, (d, stop), text)]: d = 8..160 unclosed nested constructs, then a stop token and further items.  Every text is a
+    syntax error; the tree must still contain every byte (label = position:construct).
+    The trace validation costs about (tokens + events)^2 per text, so the depth ladder of a construct stops where its text reaches
+    ~1200 (quick) / ~4000 (thorough) tokens + events; beyond that only depth 160 itself is taken (two texts per construct)."""
+    import re
+    quick = tier == "quick"
+    rungs = [8, 32, 33, 64, 65, 128, 160] if quick else sorted(set(range(8, 161, 8)) | {31, 33, 63, 65, 127, 129})
+    out = []
+
+    def sweep(label, pre, opener, atoms):
+        per_level = 3 * len(re.findall(r"\s+|\w+|=>|->|[^\w\s]", opener(6))) // 6 + 3          # tokens (with blanks) + events per level, measured
+        cap = max(8, min(160, (1200 if quick else 4000) // per_level))
+        ladder = sorted({d for d in rungs if d <= cap} | {cap})
+        for si, (stop, st) in enumerate(UNCLOSED_STOPS.items()):
+            for di, d in enumerate(ladder):
+                if quick and d != ladder[-1] and (si + di) % 2:
+                    continue              # quick: every stop at the deepest rung, every other one below it
+                for ai, atom in enumerate(atoms):
+                    if quick and ai != (si + di // 2) % len(atoms):
+                        continue          # quick: one innermost operand per (stop, depth), all of them over the sweep
+                    out.append((label, (d, stop), pre + opener(d) + atom + st + UNCLOSED_TAIL))
+        if not quick:                     # every depth in front of `;`
+            out.extend((label, (d, "semi"), pre + opener(d) + atoms[0] + ";" + UNCLOSED_TAIL) for d in range(8, cap + 1) if d not in ladder)
+        if cap < 160:
+            out.extend((label, (160, stop), pre + opener(160) + atoms[0] + UNCLOSED_STOPS[stop] + UNCLOSED_TAIL) for stop in ("semi", "item"))
+    for kind, op in UNCLOSED_OPENERS.items():
+        sweep("expr:" + kind, UNCLOSED_EXPR_PRE,
+              (lambda d: "".join(UNCLOSED_MIX[i % len(UNCLOSED_MIX)] for i in range(d))) if op is None else (lambda d, op=op: op * d), ("1", "", "x"))
+    for label, (pre, op, atom) in UNCLOSED_SHAPES.items():
+        sweep(label, pre, lambda d, op=op: op * d, (atom, ""))
+    return out
+
+
 def texts(tier, rnd):
     out = []
     n = 2 if tier == "quick" else 3
@@ -60,6 +117,8 @@ def texts(tier, rnd):
                 a, b = min(i, j), max(i, j)
                 s = s[:a] + s[b:b + 1] + s[a + 1:b] + s[a:a + 1] + s[b + 1:]
         out.append(s)
+    # deep unclosed nesting in front of a token the parser does not skip (kept last: run() labels these by position)
+    out += [t for _, _, t in unclosed_texts(tier)]
     return out
 
 
@@ -73,14 +132,17 @@ def run(tier, rep):
         if r.coverage.get(a, 0) == 0:
             raise ToolError(f"vacuity: TreeBuilder action {a} never taken")
     ts = texts(tier, rnd)
+    unclosed = unclosed_texts(tier)
+    label = {len(ts) - len(unclosed) + k: ("unclosed:" + l, d_) for k, (l, d_, _) in enumerate(unclosed)}          # index in ts -> family label, depth
+    assert all(ts[i] == unclosed[i - len(ts) + len(unclosed)][2] for i in label)
     reqs = [{"id": i, "mode": "cst", "bytes": list(t.encode("utf-8"))} for i, t in enumerate(ts)]
     answers = gv_parallel("parse", reqs, shards=NCPU)
     recs = []
     crash = 0
-    for t, a in zip(ts, answers):
+    for i, (t, a) in enumerate(zip(ts, answers)):
         if a["verdict"] != "ok":
             crash += 1
-            rep.violation(f"parse-{a['verdict']}:{a.get('at')}", {"text": t[:300], "msg": a.get("msg")}, replay={"text": t})
+            rep.violation(f"parse-{a['verdict']}:{a.get('at')}" + (":" + label[i][0] if i in label else ""), {"text": t[:300], "msg": a.get("msg")}, replay={"text": t})
             continue
         for d in a["diags"]:
             if d["s"] is None:
@@ -124,6 +186,10 @@ def run(tier, rep):
             nonconf += 1
             bad = sorted(k for k, v in nc["verdict"].items() if not v)
             text = ts[nc["id"]]
+            fam = label.get(nc["id"])
+            if fam:        # generated family: the identity names position and construct; depth and stop token are in the detail
+                rep.violation("nonconform:" + "+".join(bad) + ":" + fam[0], {"depth": fam[1][0], "stop": fam[1][1], "text": text[:400], "verdict": nc["verdict"]}, replay={"text": text})
+                continue
             rep.violation("nonconform:" + "+".join(bad), {"text": text[:400], "verdict": nc["verdict"]}, replay={"text": text})
     with_err = sum(1 for a in recs if a["diags"])
     multibyte = sum(1 for a in recs if not all(a["char_boundary"]))
@@ -131,7 +197,9 @@ def run(tier, rep):
         rep.sample({"text": t})
     rep.coverage.update({"states": r.distinct + states, "transitions": r.generated + trans, "traces_validated_against_impl": len(recs),
                          "texts": len(ts), "texts_with_diagnostics": with_err, "texts_with_multibyte_chars": multibyte,
-                         "action_coverage": r.coverage, "alphabet": len(ALPHABET), "nonconforming": nonconf})
+                         "action_coverage": r.coverage, "alphabet": len(ALPHABET), "nonconforming": nonconf,
+                         "unclosed_nesting_texts": len(unclosed), "unclosed_nesting_shapes": len({l for l, _, _ in unclosed}),
+                         "unclosed_nesting_depths": [8, 160]})
     rep.assumptions += ["exhaustive over the alphabet up to 2 (quick) / 3 (thorough) symbols, sampled beyond; corpus mutations are seeded",
                         "the builder model is checked for <= 4 tokens and <= 5 events"]
     if with_err < 100 or multibyte < 100:
